@@ -339,6 +339,39 @@ pub fn check(case: &Case) -> CaseResult {
                 r.timestamp
             );
             vensure!(r.config_first, "bridge:no-split-config", "readout did not write AllowSplitEntries before its values");
+            // every reported key must be one that was registered, under its own label set
+            let known_dims = |dims: &Vec<(String, String)>| {
+                LABELSETS.iter().any(|l| l.iter().map(|(a, b)| (a.to_string(), b.to_string())).collect::<Vec<_>>() == *dims)
+            };
+            for (k, v) in &r.counters {
+                vensure!(known_dims(&k.1), "bridge:labels", "counter reported with dimensions {:?}", k.1);
+                let kk = LABELSETS.iter().position(|l| l.iter().map(|(a, b)| (a.to_string(), b.to_string())).collect::<Vec<_>>() == k.1).unwrap();
+                vensure!(
+                    *v == 0 || total_inc.contains_key(&K { name: 0, labels: kk as u8 }),
+                    "bridge:increments-under-a-key-never-incremented",
+                    "counter {k:?} reports {v} although nothing was ever added under that key"
+                );
+            }
+            for (k, v) in &r.histograms {
+                vensure!(known_dims(&k.1), "bridge:labels", "histogram reported with dimensions {:?}", k.1);
+                let kk = LABELSETS.iter().position(|l| l.iter().map(|(a, b)| (a.to_string(), b.to_string())).collect::<Vec<_>>() == k.1).unwrap();
+                vensure!(
+                    v.iter().all(|x| x.1 == 0) || recorded.contains_key(&K { name: 1, labels: kk as u8 }),
+                    "bridge:samples-under-a-key-never-recorded",
+                    "histogram {k:?} reports samples although nothing was ever recorded under that key"
+                );
+            }
+            if is_final {
+                // a gauge that was set is part of every later readout, with its last value
+                for (k, last) in &gauge_last {
+                    let got = r.gauges.get(&(k.name().to_string(), k.dims()));
+                    vensure!(
+                        got.map(|x| x.to_bits()) == Some(last.to_bits()),
+                        "bridge:gauge-not-last-value",
+                        "gauge {k:?} was last set to {last}, the quiescent readout reports {got:?}"
+                    );
+                }
+            }
             for (k, v) in r.counters {
                 *reported_inc.entry(k).or_insert(0) += v;
             }
@@ -402,7 +435,7 @@ pub fn check(case: &Case) -> CaseResult {
             }
             outs.sort_by(|a, b| a.partial_cmp(b).unwrap());
             for (i, o) in ins.iter().zip(outs.iter()) {
-                let ok = if *i < 32 { *o == *i as f64 } else { (*o - *i as f64).abs() <= *i as f64 / 16.0 };
+                let ok = if *i < 32 { *o == *i as f64 } else { (*o - *i as f64).abs() <= *i as f64 / 32.0 };
                 vensure!(ok, "bridge:histogram-value-error", "histogram {k:?}: sample {i} reported at {o}");
             }
         }
@@ -679,7 +712,7 @@ pub fn run(ctx: &mut Ctx) {
     ctx.explore(
         SubCfg::new(
             "c20-bridge",
-            "MetricRecorder<dyn metrics::Recorder> driven through the metrics 0.24 Recorder trait: 1-3 phases, each with describe calls (before or after first registration), 1-8 updater threads running generated scripts over 3 names x 3 label sets (counter increments incl. 0 and u32::MAX, histogram samples 0..2^32 and over-range through record and record_many, pauses), one gauge writer, and a reader thread calling readout() at generated points WHILE the updaters run, plus a readout after the join. Oracle: per counter key the readout deltas sum to the increments; per histogram key the bucket counts sum to the number of samples and, sorted pairwise, each reported value is exact below 32 and within 1/16 above; the final gauge equals the last value set; every readout replayed into a RecLog writes the injected timestamp, AllowSplitEntries before any value, each metric under its registered name with its labels as dimensions and the described unit; the readout entry is accepted by Emf::all_validations. Non-trivial = >=2 updater threads on the same key with a readout running concurrently",
+            "MetricRecorder<dyn metrics::Recorder> driven through the metrics 0.24 Recorder trait: 1-3 phases, each with describe calls (before or after first registration), 1-8 updater threads running generated scripts over 3 names x 3 label sets (counter increments incl. 0 and u32::MAX, histogram samples 0..2^32 and over-range through record and record_many, pauses), one gauge writer, and a reader thread calling readout() at generated points WHILE the updaters run, plus a readout after the join. Oracle: per counter key the readout deltas sum to the increments; per histogram key the bucket counts sum to the number of samples and, sorted pairwise, each reported value is exact below 32 and within 1/32 above (the bucket midpoint of a 1/16-wide bucket - the bound the bridge's own accuracy test pins); every reported key is a registered one and carries data only if data was recorded under it; every gauge that was set is in the quiescent readout with its last value; the final gauge equals the last value set; every readout replayed into a RecLog writes the injected timestamp, AllowSplitEntries before any value, each metric under its registered name with its labels as dimensions and the described unit; the readout entry is accepted by Emf::all_validations. Non-trivial = >=2 updater threads on the same key with a readout running concurrently",
             if q { 3_000 } else { 60_000 },
         )
         .threads(ctx.tier.pick(2, 4))
